@@ -29,13 +29,13 @@ static const char B64[]="ABCDEFGHIJKLMNOPQRSTUVWXYZabcdefghijklmnopqrstuvwxyz012
 static std::string ref_b64(const std::string &s){ std::string r; size_t i=0; for(;i+3<=s.size();i+=3){ unsigned v=((unsigned char)s[i]<<16)|((unsigned char)s[i+1]<<8)|(unsigned char)s[i+2]; r+=B64[v>>18]; r+=B64[(v>>12)&63]; r+=B64[(v>>6)&63]; r+=B64[v&63]; }
 	if(s.size()-i==1){ unsigned v=(unsigned char)s[i]<<16; r+=B64[v>>18]; r+=B64[(v>>12)&63]; } else if(s.size()-i==2){ unsigned v=((unsigned char)s[i]<<16)|((unsigned char)s[i+1]<<8); r+=B64[v>>18]; r+=B64[(v>>12)&63]; r+=B64[(v>>6)&63]; } return r; }
 
-static void bad(const std::string &sig,const std::string &what,const std::string &in){ vf::violation(sig,what+" (input hex "+vf::hex(in)+")","\"op\":"+vf::jstr(sig)+",\"input_hex\":"+vf::jstr(vf::hex(in))); }
+static void bad(const std::string &sig,const std::string &what,const std::string &in){ vf::violation(sig,what+" (input: "+std::to_string(in.size())+" bytes, hex "+vf::hex(in.substr(0,120))+(in.size()>120?"...":"")+")","\"op\":"+vf::jstr(sig)+",\"input_hex\":"+vf::jstr(vf::hex(in))); }
 
 // ---- escape on all paths ---------------------------------------------------------------------
 static void check_escaped(const char *path,const std::string &in,const std::string &out){ bool clean; std::string back=ref_unescape(out,clean);
 	if(!clean) bad(std::string("escape-markup:")+path,std::string("escaped text on path ")+path+" still contains markup: "+vf::vis(out),in);
 	else if(back!=in) bad(std::string("escape-inverse:")+path,std::string("escaped text on path ")+path+" does not un-escape to the input: "+vf::vis(out),in); }
-static void escape_case(const std::string &s){ vf::eval(); vf::announce("escape "+vf::hex(s));
+static void escape_case(const std::string &s){ vf::eval(); vf::announce("escape len="+std::to_string(s.size())+" "+vf::hex(s.substr(0,400)));
 	std::string e1=util::escape(s); check_escaped("string",s,e1);
 	{ std::stringbuf sb; int r=util::escape(s.data(),s.data()+s.size(),sb); if(r!=0) bad("escape-ret:streambuf","escape to a healthy streambuf reported failure",s); check_escaped("streambuf",s,sb.str()); }
 	{ std::ostringstream o; util::escape(s.data(),s.data()+s.size(),o); if(!o) bad("escape-ret:ostream","escape to a healthy ostream set failbit",s); check_escaped("ostream",s,o.str()); }
@@ -44,8 +44,8 @@ static void escape_case(const std::string &s){ vf::eval(); vf::announce("escape 
 	{ widgets::text t; t.value(s); std::ostringstream o; form_context ctx(o); t.render_value(ctx); std::string r=o.str(); if(r.size()<9||r.compare(0,8," value=\"")||r[r.size()-1]!='"') bad("escape-shape:widget","text widget value attribute has an unexpected shape: "+vf::vis(r),s); else check_escaped("widgets::text",s,r.substr(8,r.size()-9)); }
 	{ widgets::textarea t; t.value(s); std::ostringstream o; form_context ctx(o); ctx.widget_part(form_flags::second_part); t.render_input(ctx); std::string r=o.str(); size_t a=r.find('>'),z=r.rfind("</textarea>"); if(a==std::string::npos||z==std::string::npos||z<a) bad("escape-shape:textarea","textarea rendering has an unexpected shape: "+vf::vis(r),s); else check_escaped("widgets::textarea",s,r.substr(a+1,z-a-1)); }
 	vf::outcome("esc|"+e1); { static uint64_t sc=0; if(vf::sample_tick(sc,9973)) vf::sample("{\"codec\":\"escape\",\"input_hex\":"+vf::jstr(vf::hex(s.substr(0,16)))+",\"output\":"+vf::jstr(e1.substr(0,40))+",\"sink_capacities_tried\":"+std::to_string(e1.size()+1)+"}"); }
-	// failing sinks: every capacity k
-	for(size_t k=0;k<=e1.size();k++){ vf::eval();
+	// failing sinks: every capacity k (for outputs beyond 2000 bytes: every 509th capacity and the last 3)
+	for(size_t k=0;k<=e1.size();k+= (e1.size()>2000&&k+3<e1.size()? std::min<size_t>(509,e1.size()-3-k):1)){ vf::eval();
 		{ LimBuf lb(k); int r=util::escape(s.data(),s.data()+s.size(),lb); if(lb.got!=e1.substr(0,lb.got.size())||lb.got.size()>k) bad("escape-sink-prefix:streambuf","bytes delivered to a short sink are not a prefix of the correct output",s); if((r!=0)!=(k<e1.size())) vf::guard("info_sink_failure_not_reported"); if(k<e1.size()) vf::guard("sink_failures_seen"); }
 		{ LimBuf lb(k); std::ostream o(&lb); util::escape(s.data(),s.data()+s.size(),o); if(lb.got!=e1.substr(0,lb.got.size())) bad("escape-sink-prefix:ostream","bytes delivered to a short sink are not a prefix of the correct output",s); if(o.fail()!=(k<e1.size())) vf::guard("info_sink_failure_not_reported"); }
 		{ LimBuf lb(k); std::ostream o(&lb); o<<filters::escape(s); if(lb.got!=e1.substr(0,lb.got.size())) bad("escape-sink-prefix:filter","bytes delivered to a short sink are not a prefix of the correct output",s); if(o.fail()!=(k<e1.size())) vf::guard("info_sink_failure_not_reported"); }
@@ -56,13 +56,13 @@ static void check_urlenc(const char *path,const std::string &in,const std::strin
 	else if(back!=in) bad(std::string("urlencode-value:")+path,"urlencode output decodes (by the reference) to something else",in);
 	if(util::urldecode(out)!=in) bad(std::string("urldecode-inverse:")+path,"urldecode(urlencode(x)) != x",in);
 	if(util::urldecode(out.data(),out.data()+out.size())!=in) bad(std::string("urldecode-inverse-ptr:")+path,"urldecode(ptr)(urlencode(x)) != x",in); }
-static void url_case(const std::string &s){ vf::eval(); vf::announce("url "+vf::hex(s));
+static void url_case(const std::string &s){ vf::eval(); vf::announce("url len="+std::to_string(s.size())+" "+vf::hex(s.substr(0,400)));
 	std::string e1=util::urlencode(s); check_urlenc("string",s,e1);
 	{ std::stringbuf sb; int r=util::urlencode(s.data(),s.data()+s.size(),sb); if(r!=0) bad("urlencode-ret:streambuf","urlencode to a healthy streambuf reported failure",s); if(sb.str()!=e1) bad("urlencode-paths:streambuf","streambuf path differs from string path",s); }
 	{ std::ostringstream o; util::urlencode(s.data(),s.data()+s.size(),o); if(!o||o.str()!=e1) bad("urlencode-paths:ostream","ostream path differs from string path",s); }
 	{ std::ostringstream o; o<<filters::urlencode(s); if(!o||o.str()!=e1) bad("urlencode-paths:filter","filters::urlencode differs from string path: "+vf::vis(o.str()),s); }
 	vf::outcome("url|"+e1);
-	for(size_t k=0;k<=e1.size();k++){ vf::eval();
+	for(size_t k=0;k<=e1.size();k+= (e1.size()>2000&&k+3<e1.size()? std::min<size_t>(509,e1.size()-3-k):1)){ vf::eval();
 		{ LimBuf lb(k); int r=util::urlencode(s.data(),s.data()+s.size(),lb); if(lb.got!=e1.substr(0,lb.got.size())) bad("urlencode-sink-prefix:streambuf","bytes delivered to a short sink are not a prefix of the correct output",s); if((r!=0)!=(k<e1.size())) vf::guard("info_sink_failure_not_reported"); }
 		{ LimBuf lb(k); std::ostream o(&lb); util::urlencode(s.data(),s.data()+s.size(),o); if(lb.got!=e1.substr(0,lb.got.size())) bad("urlencode-sink-prefix:ostream","bytes delivered to a short sink are not a prefix of the correct output",s); if(o.fail()!=(k<e1.size())) vf::guard("info_sink_failure_not_reported"); }
 		{ LimBuf lb(k); std::ostream o(&lb); o<<filters::urlencode(s); if(lb.got!=e1.substr(0,lb.got.size())) bad("urlencode-sink-prefix:filter","bytes delivered to a short sink are not a prefix of the correct output",s); if(o.fail()!=(k<e1.size())) vf::guard("info_sink_failure_not_reported"); }
@@ -74,7 +74,7 @@ static void urldecode_case(const std::string &s){ vf::eval(); vf::announce("urld
 	if(wf){ vf::guard("urldecode_wellformed"); if(d!=ref) bad("urldecode-value","urldecode of well-formed text differs from the reference: got "+vf::vis(d),s); } else { vf::guard("urldecode_malformed"); if(d.size()>s.size()) bad("urldecode-grow","urldecode output longer than input",s); }
 	vf::outcome("ud|"+d+(wf?"|w":"|m")); }
 // ---- base64url ----------------------------------------------------------------------------------
-static void b64_case(const std::string &s,bool sinks){ vf::eval(); vf::announce("b64 "+vf::hex(s)); std::string want=ref_b64(s);
+static void b64_case(const std::string &s,bool sinks){ vf::eval(); vf::announce("b64 len="+std::to_string(s.size())+" "+vf::hex(s.substr(0,400))); std::string want=ref_b64(s);
 	std::string e=b64url::encode(s); if(e!=want) bad("b64-encode:string","base64url encode(string) differs from the reference: "+vf::vis(e),s);
 	int es=b64url::encoded_size(s.size()); if(es!=(int)want.size()) bad("b64-encoded_size","encoded_size is not the number of characters produced",s);
 	{ std::vector<unsigned char> buf(es+16,0xA5); const unsigned char *b=(const unsigned char*)s.data(); unsigned char *end=b64url::encode(b,b+s.size(),&buf[8]); if(end-&buf[8]!=es) bad("b64-encode-ptr-len","encode(ptr) end pointer != encoded_size",s); if(std::string((char*)&buf[8],es)!=want) bad("b64-encode:ptr","encode(ptr) output differs",s); for(int i=0;i<8;i++) if(buf[i]!=0xA5||buf[8+es+i]!=0xA5) bad("b64-encode-canary","encode(ptr) wrote outside [target,target+encoded_size)",s);
@@ -121,6 +121,8 @@ static void run_shard(int sh,int n){ std::string all; for(int i=0;i<256;i++) all
 	else { std::string g; unsigned char gv[]={0,1,2,3,0x0f,0x10,0x3f,0x40,0x7f,0x80,0xbf,0xc0,0xfb,0xfc,0xfe,0xff}; g.assign((char*)gv,16); all_strings(3,g,sh,n,[&](const std::string &s){ if(s.size()==3) b64_case(s,true); }); }
 	// lengths 0..1024 (pattern) incl. the 127/128/129 filter-buffer edges; escape/url for lengths around the 128-byte filterbuf with markup at the edge
 	for(int len=0;len<=1024;len++){ if(len%n!=sh) continue; std::string s; for(int i=0;i<len;i++) s+=(char)(i*7+len); b64_case(s,len<140); if(len<=300){ std::string m; for(int i=0;i<len;i++) m+="a<&\"'>%é "[(i+len)%10]; escape_case(m); url_case(m);} vf::guard("length_sweep"); }
+	// lengths around the block sizes the encoders work in (4096-byte blocks, 3-byte groups, 16 KiB stream buffers): every length within +-4 of k*1024 for k = 1..17, and of 32768, 65536
+	{ int li=0; std::vector<int> big; for(int k=2;k<=17;k++) for(int d=-4;d<=4;d++) big.push_back(k*1024+d); for(int d=-4;d<=4;d++){ big.push_back(32768+d); big.push_back(65536+d); } for(size_t i=0;i<big.size();i++){ if((li++%n)!=sh) continue; int len=big[i]; std::string s; for(int j=0;j<len;j++) s+=(char)(j*7+len); b64_case(s,false); std::string m; for(int j=0;j<len;j++) m+="a<&\"'>%\xc3\xa9 "[(j+len)%10]; if(len<=20000){ escape_case(m); url_case(m); } vf::guard("block_size_lengths"); } }
 	pieces_pass(sh,n);
 	// decoders on arbitrary strings
 	std::string ua; ua+="%+a4Gf"; ua+='\0'; ua+='\xff'; all_strings(vf::thorough()?6:5,ua,sh,n,[&](const std::string &s){ urldecode_case(s); });
@@ -132,10 +134,10 @@ static void replay(const std::string &file){ std::ifstream f(file); std::strings
 	escape_case(in); url_case(in); b64_case(in,true); urldecode_case(in); b64_decode_arbitrary(in); printf("replayed input %s\n",vf::hex(in).c_str()); }
 int main(int argc,char **argv){ vf::init(argc,argv,"C15","exploration");
 	if(!vf::C().replay_file.empty()){ replay(vf::C().replay_file); return vf::finish(); }
-	vf::C().rule="objects written in 2 or 3 pieces with lengths from {0,1,2,5,63,64,126..130,200,255..257,300,1000}^2 (x 6 third pieces) through filters::escape/urlencode/base64_urlencode/raw against the whole-text result; every byte string of length 0..2 through escape (string, streambuf, ostream, filters::escape, text and textarea widgets), urlencode (4 paths) and base64url (string, pointer with canaries and exact heap buffer, ostream, filter), base64 length 3 ("+std::string(vf::thorough()?"all 2^24":"16^3 grid")+"), lengths 0..1024, every sink capacity k in 0..len(output) for the streaming variants, urldecode on all strings over {%,+,a,4,G,f,NUL,ff} and all %XY, base64 decode on all strings over {A,_,-,=,%,+,z,NUL,ff}. distinct = distinct (codec,output); non-trivial = all of them (each is a different output text)";
+	vf::C().rule="every length within +-4 of k*1024 (k = 2..17), 32768 and 65536 through all base64url / escape / urlencode variants; objects written in 2 or 3 pieces with lengths from {0,1,2,5,63,64,126..130,200,255..257,300,1000}^2 (x 6 third pieces) through filters::escape/urlencode/base64_urlencode/raw against the whole-text result; every byte string of length 0..2 through escape (string, streambuf, ostream, filters::escape, text and textarea widgets), urlencode (4 paths) and base64url (string, pointer with canaries and exact heap buffer, ostream, filter), base64 length 3 ("+std::string(vf::thorough()?"all 2^24":"16^3 grid")+"), lengths 0..1024, every sink capacity k in 0..len(output) for the streaming variants, urldecode on all strings over {%,+,a,4,G,f,NUL,ff} and all %XY, base64 decode on all strings over {A,_,-,=,%,+,z,NUL,ff}. distinct = distinct (codec,output); non-trivial = all of them (each is a different output text)";
 	vf::assume("reference codecs (un-escape, strict %XX decoder, RFC 4648 base64url) are written in the harness");
 	vf::assume("pointer decode is only called when decoded_size()>=0 (its documented precondition)");
 	vf::assume("urldecode of text with a malformed % escape is unspecified (only: no crash, output not longer than input)");
 	int n=16; vf::parallel(n,n,[&](int sh){ run_shard(sh,n); },vf::thorough()?1200:200);
-	vf::require_guard("sink_failures_seen"); vf::require_guard("urldecode_wellformed"); vf::require_guard("b64_arbitrary_decoded"); vf::require_guard("length_sweep"); vf::require_guard("piecewise_writes");
+	vf::require_guard("sink_failures_seen"); vf::require_guard("urldecode_wellformed"); vf::require_guard("b64_arbitrary_decoded"); vf::require_guard("length_sweep"); vf::require_guard("piecewise_writes"); vf::require_guard("block_size_lengths");
 	return vf::finish(); }
